@@ -47,7 +47,8 @@ ASSUMPTIONS = [
     "exact-recovery / refit / covariance tolerance 1e-2 of the largest loading: least_squares stops on relative "
     "cost/step changes of 1e-8, which bounds nothing rigorously in a flat valley; worst value observed on the pinned "
     "tree for converged, well-scaled cases is 1.3e-3 (TemkinApprox, K-theta valley)",
-    "rmse identity: same arithmetic on the same arrays, rel 1e-9 (abs 1e-13 on the dimensionless number)",
+    "rmse identity: same arithmetic on the same arrays, rel 1e-9 (abs 1e-13 on the dimensionless number; Virial abs 1e-11: "
+    "its fit runs in unit-range variables and the parameters are rescaled afterwards)",
     "a violation of the 1e-2 clauses is sub-classified by one extra run of the library's own routine on the same data "
     "divided by max(p) and max(n) with optimization_params={'x_scale':'jac'}: if that reproduces the data the tag gets "
     "the suffix ':scale' (units/scale dependence of the optimiser, ledger KF-C12-1); anything else keeps the plain tag",
@@ -495,7 +496,9 @@ def _rmse_reference(mi, p, l, add_point=False):
 def _assert_rmse(mi, p, l, what, add_point=False):
     ref = _rmse_reference(mi, p, l, add_point)
     got = float(mi.model.rmse)
-    if not (math.isfinite(got) and close(got, ref, 1e-9, 1e-13)):
+    # Virial fits in unit-range variables and rescales K, A, B, C afterwards: the recomputation in the units of the data
+    # is not bit-identical, its rounding error is ~ eps * |ln K| (absolute)
+    if not (math.isfinite(got) and close(got, ref, 1e-9, 1e-11 if mi.model.name == "Virial" else 1e-13)):
         raise Violation(f"{what}: reported rmse {got!r} != recomputed sqrt(mean r^2)/range {ref!r} "
                         f"(parameters { {k: float(v) for k, v in mi.model.params.items()} })", tag="rmse_mismatch")
     pr, lr = mi.model.pressure_range, mi.model.loading_range
@@ -904,7 +907,9 @@ def check_point_model(desc, ctx):
             # degenerate curve (e.g. a garbage first fit): there is no loading range to sample
             ctx.label("degenerate_model_curve")
             return
-        req_l = lo_l + (0.02 + 0.96 * u) * (hi_l - lo_l)
+        # loadings evenly spread over the model's range (a geometric grid in LOADING piles the points up at the low
+        # end, which is not a sampling of the curve)
+        req_l = lo_l + (0.02 + 0.96 * np.linspace(0.0, 1.0, len(u))) * (hi_l - lo_l)
         pt = pygaps.PointIsotherm.from_modelisotherm(mi, loading_points=req_l.tolist())
     got_p = np.asarray(pt.pressure(branch=branch), dtype=float)
     got_l = np.asarray(pt.loading(branch=branch), dtype=float)
